@@ -329,7 +329,7 @@ def run(ctx):
         for i in bad[:10]:
             case, res = meta[i]
             try:
-                model = ctx.coq_eval(['CompositeSpec', 'Bind'], [B.g_case(case, res).split(') (')[0].replace('c30_eqb (', '', 1) + ')'])[0]
+                model = ctx.coq_eval(['CompositeSpec', 'Bind'], [B.g_run(case)])[0]
             except Exception as e:
                 model = 'n/a (%s)' % str(e)[-100:]
             ctx.disagreement('model-vs-impl', 'Model/Bind.v differs from query.py at %s: impl %s model %s' % (short(case), short(res), short(model)),
